@@ -695,10 +695,13 @@ func (e *Env) call(x *SExpr) Term {
 	}
 	if al, ok := fe.eng.specs.specAliases[x.Name]; ok {
 		fn := fe.eng.byFull[al.fc.Name]
+		if al.fc.Pkg != "" {
+			fn = fe.eng.lookupFunc(al.fc.Pkg, al.fc.Name)
+		}
 		if fn == nil {
 			e.fail("spec alias %s: function %s not loaded", x.Name, al.fc.Name)
 		}
-		rets := fe.pureAppSpec(e.st, al.fc.Name, args(), sigResults(fn.Signature))
+		rets := fe.pureAppSpec(e.st, fullName(fn), args(), sigResults(fn.Signature))
 		if al.idx >= len(rets) {
 			e.fail("spec alias %s: no result %d", x.Name, al.idx)
 		}
